@@ -6,10 +6,6 @@ Helper lemmas for C14: the loop invariant of `reconstruct_volumes`.
 namespace DirectVerif.Recon
 open DirectVerif DirectVerif.Sampler
 
-/-- the batches of one volume `f` delivered as the pieces `ps` -/
-def volBatches {β} (f : Nat) (ps : List (List β)) : List (RBatch β) :=
-  ps.map fun p => ⟨List.replicate p.length f, p⟩
-
 theorem filenameOf_replicate (n f : Nat) (h : 0 < n) : filenameOf (List.replicate n f) = some f := by
   cases n with
   | zero => omega
